@@ -59,6 +59,12 @@ int main(int argc, char** argv)
 		  if (c["list"].length() != 2 || c["sub"]["deep"].length() != 1 || !(c["sub"]["v"] == Var(1))) { printf("REPRODUCED clone of an object shares a nested container with the original\n"); return 1; }
 		  c["list"] << 9 << 9; if (o["list"].length() != 3) { printf("REPRODUCED original changed through its clone\n"); return 1; } }
 		{ Var a = Var::ARRAY; Var in = Var::ARRAY; in << 1; a << in << "s"; Var c = a.clone(); a[0] << 2; if (c[0].length() != 1) { printf("REPRODUCED clone of an array shares a nested array\n"); return 1; } }
+		// a copy of a string Var is a value of its own: assigning to one leaves the other unchanged, for every pair of lengths around the inline boundary
+		for (int n1 : { 0, 3, 7, 8, 9, 20, 40 }) for (int n2 : { 0, 7, 8, 12, 30, 200 }) { std::string t1(n1, 'p'), t2(n2, 'q'); Var a = String(t1.c_str()); Var b = a; Var arr = Var::ARRAY; arr << a;
+			a = String(t2.c_str()); if (std::string(*b.toString()) != t1 || std::string(*arr[0].toString()) != t1) { printf("REPRODUCED a copy of a %d-character string Var changed when the original was assigned a %d-character string\n", n1, n2); return 1; }
+			b = String(t2.c_str()); b = String("zz"); if (std::string(*a.toString()) != t2) { printf("REPRODUCED the original changed through its copy\n"); return 1; } }
+		// unsigned values around 2^31 keep their value
+		for (unsigned u : { 0u, 1u, 2147483647u, 2147483648u, 2147483649u, 4294967295u }) { Var v(u); Var w; w = u; if ((double)v != (double)u || (double)w != (double)u || !(v == Var((double)u)) || !(v == w)) { printf("REPRODUCED Var(%uu) holds %.0f\n", u, (double)v); return 1; } }
 		printf("OK\n"); return 0;
 	}
 	return 2;
